@@ -1090,7 +1090,7 @@ def o_C14(I):
 def o_C15(I):
     """cancellation: run() returns only for a C13 cause, the others complete properly, quota accounting stays exact.
     K1 (known finding): a QoS 2 publish dropped before it sent PUBREL leaves its exchange (and slot) unfinished."""
-    out = o_C13(I) + completion_check(I) + o_C10(I) + o_C07(I, check_end=False)
+    out = o_C13(I) + completion_check(I) + o_C10(I) + o_C07(I)
     # a cancelled QoS 2 publish: either it never got to queue its PUBREL (K1, known finding), or it did — then the
     # PUBREL must still be written, otherwise the exchange (and its flow-control slot) is lost
     for op in I.ops.values():
